@@ -5,9 +5,22 @@ Nothing in /repo is modified: observation points are instance attributes set fro
 (proto.handle_line call-through wrapper, gw.logic call-through wrapper for the asyncio
 flavour) and a recording object below the real mysensors.transport.Transport.send.
 """
+import threading
 import time as _time
 from collections import deque
 from unittest import mock
+
+
+class HarnessError(Exception):
+    """the harness itself failed (e.g. the poll thread never became idle); never a violation"""
+
+
+class _FastSleepTime:
+    """stands in for `time` inside mysensors.task: the poll period (0.02 s) is shortened, nothing else"""
+
+    @staticmethod
+    def sleep(seconds):
+        _time.sleep(min(seconds, 0.001))
 
 FIXED_TIME = 1700000000
 
@@ -48,6 +61,9 @@ def make_transport():
         def __init__(self):
             super().__init__(None, None)
             self.protocol = _Proto()
+
+        def connect(self):
+            """tasks.start() connects the transport first: nothing to connect here"""
 
         @property
         def log(self):
@@ -202,9 +218,51 @@ class Run:
             if n > 100000:
                 raise RuntimeError("pump does not drain")
 
+    # ------------------------------------------------------------ the REAL poll thread
+    def start_thread(self):
+        """gw.tasks.start(): transport.connect() (no-op) + the real _poll_queue in its own thread"""
+        before = set(threading.enumerate())
+        self.gw.tasks.start()
+        new = [t for t in threading.enumerate() if t not in before]
+        if len(new) != 1:
+            raise HarnessError(f"tasks.start() started {len(new)} threads")
+        self.thread = new[0]
+
+    def quiesce(self):
+        """wait until the queue is empty AND the poll thread is idle: a sentinel job (added from
+        this thread) reports from the poll thread whether anything is queued behind it"""
+        tasks = self.gw.tasks
+        for _ in range(100000):
+            done = threading.Event()
+            box = {}
+
+            def sentinel(done=done, box=box):
+                box["empty"] = not tasks.queue
+                done.set()
+                return None
+
+            tasks.add_job(sentinel)
+            if not done.wait(60):
+                if not self.thread.is_alive():
+                    self.exc = "poll thread died (exception in a job)"
+                    return
+                raise HarnessError("poll thread did not reach the sentinel job within 60 s")
+            if box["empty"]:
+                return
+        raise HarnessError("poll thread never became idle")
+
+    def stop_thread(self):
+        self.gw.tasks._stop_event.set()      # not tasks.stop(): that also disconnects and saves
+        self.thread.join(60)
+        if self.thread.is_alive():
+            raise HarnessError("poll thread did not stop within 60 s")
+
     def _after_line(self):
         s = self.schedule
-        if s == "line":
+        if s == "thread-line":
+            if self.exc is None:
+                self.quiesce()
+        elif s == "line":
             self.drain()
         elif isinstance(s, tuple):
             for _ in range(s[1].choice((0, 0, 0, 1, 1, 2, 3))):
@@ -265,6 +323,37 @@ class Run:
             "t_recv": dict(self.t_recv), "t_run": dict(self.t_run),
             "exc": self.exc, "odd": list(self.odd),
         }
+
+
+def thread_run(version, setup, chunks, variant):
+    """threaded flavour with the gateway's OWN poll thread (tasks.start()).
+    variant "line": thread running, quiescence awaited after every delivered line
+                    (must equal the hand-pumped "line" schedule);
+    variant "end":  all chunks fed first, then the thread is started and drains
+                    (must equal the hand-pumped "end" schedule)."""
+    r = Run("sync", version, "thread-line" if variant == "line" else "thread-end")
+    r.setup(setup)
+    with mock.patch("mysensors.handler.time", _FakeTimeModule), mock.patch("mysensors.task.time", _FastSleepTime):
+        started = False
+        try:
+            if variant == "line":
+                r.start_thread()
+                started = True
+            for c in chunks:
+                r.proto.data_received(c)
+            if variant != "line":
+                r.start_thread()
+                started = True
+            if r.exc is None:
+                r.quiesce()
+        except HarnessError:
+            raise
+        except Exception as exc:
+            r.exc = f"{type(exc).__name__}: {exc}"
+        finally:
+            if started:
+                r.stop_thread()
+    return r.result()
 
 
 def reference_run(version, setup, lines):
